@@ -13,6 +13,10 @@ StructLists ==
     { <<Sx("A", fa)>> : fa \in FieldVariants }
     \cup { <<Sx("A", fa), Sx("B", fb)>> : fa \in FieldVariants, fb \in {<<Fd("x", 0, 8)>>, <<Fd("x", 0, 40), Fd("y", 1, 40)>>} }
     \cup { <<Sx("A", <<Fd("x", 0, 8)>>), Sx("A", fb)>> : fb \in {<<Fd("x", 0, 8)>>, <<Fd("x", 0, 40), Fd("y", 1, 40)>>} }
+    (* B holds an array of / a nested A: sizes 16, 48, 72, 88 bits *)
+    \cup { <<Sx("A", fa), Sx("B", <<[name |-> "x", id |-> 0, type |-> tb]>>)>> :
+             fa \in {<<Fd("x", 0, 8)>>, <<Fd("x", 0, 8), Fd("y", 1, 16)>>, <<Fd("x", 1, 40), Fd("y", 0, 8)>>},
+             tb \in {[k |-> "arr", t |-> [k |-> "struct", name |-> "A"], n |-> 2], [k |-> "struct", name |-> "A"]} }
 
 EI(n, v) == [name |-> n, value |-> IntOfNat(v)]
 EnumLists == { <<>>, <<[name |-> "E", items |-> <<EI("X", 0)>>]>>, <<[name |-> "E", items |-> <<EI("X", 0), EI("Y", 1)>>]>>,
